@@ -1,16 +1,21 @@
 #!/bin/bash
-# build.sh [race]: instrument /repo's current working tree and build the harness binary.
-# Everything is relative to this checkout of /verif (so a snapshot of it builds itself).
+# build.sh [race]: instrument the repository's current working tree and build the harness
+# binary. Everything is relative to this checkout of /verif (so a snapshot of it builds
+# itself). VERIF_REPO (default /repo) selects the esbuild tree (used to run the checks
+# against scratch worktrees with seeded changes without touching /repo).
 set -e
 ROOT=$(cd "$(dirname "$0")/.." && pwd)
 . "$ROOT/scripts/env.sh"
+REPO=${VERIF_REPO:-/repo}
 cd "$ROOT"
 mkdir -p build
 if [ ! -x simgen/simgen ] || [ simgen/main.go -nt simgen/simgen ]; then (cd simgen && go build -o simgen .) ; fi
-./simgen/simgen -repo /repo -out "$ROOT/build" -simrt "$ROOT/simrt" -hooks "$ROOT/hooks" >/dev/null
+./simgen/simgen -repo "$REPO" -out "$ROOT/build" -simrt "$ROOT/simrt" -hooks "$ROOT/hooks" >/dev/null
+sed "s#=> /repo#=> $REPO#" harness/go.mod > build/harness.go.mod
+cp harness/go.sum build/harness.go.sum
 cd harness
 if [ "$1" = race ]; then
-  go1.26.8 test -c -race -vet=off -overlay "$ROOT/build/overlay.json" -o "$ROOT/build/harness.race.test" .
+  go1.26.8 test -c -race -vet=off -modfile "$ROOT/build/harness.go.mod" -overlay "$ROOT/build/overlay.json" -o "$ROOT/build/harness.race.test" .
 else
-  go1.26.8 test -c -vet=off -overlay "$ROOT/build/overlay.json" -o "$ROOT/build/harness.test" .
+  go1.26.8 test -c -vet=off -modfile "$ROOT/build/harness.go.mod" -overlay "$ROOT/build/overlay.json" -o "$ROOT/build/harness.test" .
 fi
